@@ -1195,8 +1195,8 @@ reg(T.pow_, T.__ipow__, nometa=True)(_inplace(_pow))
 # ------------------------------------------------------------------------------------------------
 # reductions
 def _dims(dim, nd):
-    if dim is None:
-        return tuple(range(nd))
+    if dim is None or (isinstance(dim, (tuple, list)) and len(dim) == 0):
+        return tuple(range(nd))  # torch reduces over ALL dimensions for an empty dim tuple
     if isinstance(dim, int):
         return (_axis(dim, nd),)
     return tuple(_axis(d, nd) for d in dim)
